@@ -1,7 +1,7 @@
 """C03 — support mappings (structural clauses)."""
 from . import scopes
 from ..core.report import DOMAIN_D
-from ..rules import colliders, frame, signalign, eager, affine
+from ..rules import colliders, frame, signalign, eager, affine, unpack
 from .common import e1, e2
 
 MODS = {"distance3d.geometry", "distance3d.colliders", "distance3d.mesh", "distance3d.utils"}
@@ -31,3 +31,4 @@ def run(idx, rep, tier):
     colliders.r_aabbargs(idx, rep)
     it = e1(idx)
     eager.r_eager(idx, rep, it, caller_filter=lambda f: f.module.name in ("distance3d.colliders", "distance3d.mesh"), floor=15, unknown_ceiling=2)
+    unpack.r_unpack(idx, rep, floor=1)
